@@ -9,6 +9,7 @@ CONSTANTS
   Canon = FALSE
   LenSet = {0, 1}
   PolicyClients = {"alice"}
+VIEW MCView
 INVARIANTS TypeOK
 PROPERTIES StepsOK
 CHECK_DEADLOCK FALSE
